@@ -126,6 +126,8 @@ struct Spec {
     profile: bool,
     benches: Vec<BenchSpec>,
     groups: Vec<GroupSpec>,
+    /// `--threads`
+    cli_threads: Option<Vec<usize>>,
     /// `--exact`?
     exact: bool,
     /// (inclusive?, filter text): positional filters and `--skip` filters.
@@ -177,7 +179,7 @@ fn parse_node(t: &mut Toks, path: &str, spec: &mut Spec, line: &mut u32) {
                 Some((0..k).map(|_| pct_decode(t.next())).collect())
             };
             let th = t.next();
-            let threads = if th == "-" { None } else { Some(th.split(',').map(|x| x.parse().unwrap()).collect()) };
+            let threads = if th == "-" { None } else { Some(parse_threads(th)) };
             let beh: Vec<&str> = t.next().split(':').collect();
             let mut counters = [None; 3];
             if beh[4] != "-" {
@@ -202,6 +204,17 @@ fn parse_node(t: &mut Toks, path: &str, spec: &mut Spec, line: &mut u32) {
     }
 }
 
+/// The machine's parallelism, what `0` resolves to.
+fn par() -> usize {
+    std::thread::available_parallelism().map(|x| x.get()).unwrap_or(1)
+}
+
+/// Raw thread list as written in the case: unsorted, repeats and `0` allowed;
+/// `P` stands for the machine's parallelism.
+fn parse_threads(th: &str) -> Vec<usize> {
+    th.split(',').map(|x| if x == "P" { par() } else { x.parse().unwrap() }).collect()
+}
+
 fn parse_case(case: &str) -> Spec {
     let mut t = Toks { t: case.split(' ').collect(), i: 0 };
     let mut spec = Spec::default();
@@ -214,6 +227,11 @@ fn parse_case(case: &str) -> Spec {
         parse_node(&mut t, "", &mut spec, &mut line);
     }
     assert!(spec.benches.len() + spec.groups.len() <= tables::N, "too many entries");
+    // optional: `T <list>` (`--threads` on the command line)
+    if t.i < t.t.len() && t.t[t.i] == "T" {
+        t.next();
+        spec.cli_threads = Some(parse_threads(t.next()));
+    }
     // optional: `X <e|r> <k> <+|-><name token>...` (filters passed on the command line);
     // a following `D ...` section (what they remove, for the model) is not read here.
     if t.i < t.t.len() && t.t[t.i] == "X" {
@@ -471,7 +489,7 @@ fn child_main(case: &str) {
         recs.push(format!("{}:{}:{}:{}:{}", b.id, arg, r.did_run as u8, n, body));
     }
     // on its own line, after the tree
-    println!("\u{1e}RUNS {}", recs.join(" "));
+    println!("\u{1e}RUNS P={} {}", par(), recs.join(" "));
 }
 
 // ---------------------------------------------------------------------------
@@ -493,6 +511,11 @@ fn run_case(case: &str) -> String {
         Ok(s) => s,
         Err(_) => return "crash bad-case".into(),
     };
+    if let Some(t) = &spec.cli_threads {
+        if action != "list" {
+            cmd.arg(format!("--threads={}", t.iter().map(|x| x.to_string()).collect::<Vec<_>>().join(",")));
+        }
+    }
     if spec.exact {
         cmd.arg("--exact");
     }
